@@ -1,5 +1,6 @@
 import L21.Props.C13
 import L21.Props.C13Inv
+import L21.Props.C13Rect
 #print axioms L21.Geom.c13_rect
 #print axioms L21.Geom.c13_poly
 #print axioms L21.Geom.c13_poly_boundary
@@ -11,3 +12,4 @@ import L21.Props.C13Inv
 #print axioms L21.Geom.c13_repeated_vertex
 #print axioms L21.Geom.c13_collinear_vertex
 #print axioms L21.Geom.c13_collinear_vertex_closing
+#print axioms L21.Geom.c13_rect_as_polygon
